@@ -10,6 +10,7 @@ import (
 // Config bounds one exploration.
 type Config struct {
 	MaxPreempt int           // preemption bound (switching away from a thread that could continue)
+	DelayBound bool          // delay bounding: EVERY non-default thread choice costs one (also when the running thread is blocked)
 	MaxDev     int           // deviation bound for environment choices
 	MaxSteps   int           // horizon per execution
 	Deadline   time.Time     // zero: none. When passed the exploration stops with Complete=false
@@ -93,7 +94,7 @@ func (e *explorer) explore(prefix []int, preBefore, devBefore int, top bool) {
 		for alt := 1; alt < p.N; alt++ {
 			np, nd := pre, dev
 			if p.Kind == KThread {
-				if p.CurEnabled {
+				if p.CurEnabled || e.cfg.DelayBound {
 					np++
 				}
 			} else {
